@@ -35,12 +35,15 @@ type injector struct {
 	at     int         // -1: none
 	mode   string      // "fail" | "conflict"
 	before func(k int) // pre-emption hook, called before effect k
+	// noPreempt: the next effect is the entry half of a configuration write whose values half was
+	// counted just before: the real store call cannot be entered between the two
+	noPreempt bool
 }
 
 func (i *injector) next() (k int, fail, conflict bool) {
 	k = i.n
 	i.n++
-	if i.before != nil {
+	if i.before != nil && !i.noPreempt {
 		i.before(k)
 	}
 	if i.at == k {
@@ -119,8 +122,10 @@ func (s *cfgStore) Update(ctx context.Context, c *configapi.Configuration) error
 		if fail {
 			return errInjected
 		}
+		s.inj.noPreempt = true
 	}
 	_, fail, conflict := s.inj.next()
+	s.inj.noPreempt = false
 	if fail || conflict {
 		// lose the entry compare-and-set after the values half took place: stale version
 		v := c.Version
@@ -138,8 +143,10 @@ func (s *cfgStore) UpdateStatus(ctx context.Context, c *configapi.Configuration)
 		if fail {
 			return errInjected
 		}
+		s.inj.noPreempt = true
 	}
 	_, fail, conflict := s.inj.next()
+	s.inj.noPreempt = false
 	if fail || conflict {
 		v := c.Version
 		c.Version = v + 1000000
@@ -336,14 +343,22 @@ type Result struct {
 	Requeue  string
 	Err      bool
 	Effects  int
-	Attempts int // southbound Set calls made, whatever the answer
+	Attempts int    // southbound Set calls made, whatever the answer
 	Doc      []byte // the document the model plugin was asked to validate in this invocation (nil: none)
 	Panic    string
 }
 
 // Run performs one Reconcile(id) of the real reconciler.
 func (s *Sys) Run(id string, o RunOpts) (res Result) {
-	s.inj.n, s.inj.at, s.inj.mode, s.inj.before = 0, -1, "", o.Before
+	// an invocation may run inside the pre-emption hook of another one: everything per-invocation is
+	// saved here and restored when this one returns
+	savedInj, savedRespond, savedSkip := *s.inj, s.Devs.Respond, s.Devs.SkipLog
+	savedPresent, savedVerdict := s.Plugins.Present, s.Plugins.Verdict
+	defer func() {
+		*s.inj, s.Devs.Respond, s.Devs.SkipLog = savedInj, savedRespond, savedSkip
+		s.Plugins.Present, s.Plugins.Verdict = savedPresent, savedVerdict
+	}()
+	s.inj.n, s.inj.at, s.inj.mode, s.inj.before, s.inj.noPreempt = 0, -1, "", o.Before, false
 	if o.Inject != "" {
 		s.inj.at, s.inj.mode = o.InjectAt, o.Inject
 	}
